@@ -14,7 +14,39 @@ func firstNonFinite(v interface{}) (path string, val float64, found bool) {
 	if rv.Kind() == reflect.Ptr {
 		rv = rv.Elem()
 	}
+	if !hasNF(rv) { // fast pass without building paths
+		return "", 0, false
+	}
 	return walkNF(rv, "")
+}
+
+func hasNF(v reflect.Value) bool {
+	switch v.Kind() {
+	case reflect.Float64, reflect.Float32:
+		f := v.Float()
+		return math.IsNaN(f) || math.IsInf(f, 0)
+	case reflect.Struct:
+		t := v.Type()
+		for i := 0; i < v.NumField(); i++ {
+			fk := t.Field(i).Type.Kind()
+			if fk == reflect.Float64 || fk == reflect.Struct || fk == reflect.Array || fk == reflect.Slice {
+				if hasNF(v.Field(i)) {
+					return true
+				}
+			}
+		}
+	case reflect.Array, reflect.Slice:
+		ek := v.Type().Elem().Kind()
+		if ek != reflect.Float64 && ek != reflect.Array && ek != reflect.Struct && ek != reflect.Slice {
+			return false
+		}
+		for i := 0; i < v.Len(); i++ {
+			if hasNF(v.Index(i)) {
+				return true
+			}
+		}
+	}
+	return false
 }
 
 func walkNF(v reflect.Value, path string) (string, float64, bool) {
